@@ -18,7 +18,12 @@ def _with_state_lock(func):
 
     async def wrapper(obj: 'TransferState', *args, **kwargs):
         async with obj.transfer._state_lock:
-            result = await func(*args, **kwargs)
+            current = obj.transfer.state
+            if current is obj:
+                result = await func(*args, **kwargs)
+            else:
+                # The state was changed while waiting for the lock
+                result = await getattr(type(current), func.__name__)(current, *args, **kwargs)
         return result
 
     return wrapper
